@@ -1,5 +1,5 @@
 #!/bin/bash
-# seed_import2.sh <srcdir> : round-2 import -> /verif/seeded/<Cxx>-r2mN/
+# seed_import2.sh <srcdir> : round-N import -> /verif/seeded/<Cxx>-r2mN/
 SRC="$1"; ID="$(basename "$(dirname "$SRC")")-r${ROUND:-2}$(basename "$SRC")"
 DST=/verif/seeded/$ID; mkdir -p "$DST/demo"
 cp "$SRC/patch.rebased.diff" "$DST/patch.diff"; cp "$SRC"/demo/* "$DST/demo/"; cp "$SRC/meta.json" "$DST/meta.json"
